@@ -252,6 +252,7 @@ structure St where
   burnH : AMap (Nat × Nat) := []
   swapH : AMap (Nat × Nat) := []
   now : Nat := 0
+  modRewards : Coins := []           -- x/multistaking delegator rewards on record for the basket module account
 
 def getBasket : List Basket → Nat → Option Basket
   | [], _ => none
@@ -560,6 +561,29 @@ def withdrawSurplus (s : St) (target : Acct) : List Nat → Option St
     match withdrawSurplus1 s target id with
     | none => none
     | some s1 => withdrawSurplus s1 target ids
+
+/-- the fee collector (x/multistaking pays recorded rewards out of it), as an ordinary account of the bank slice -/
+def feeCollector : Acct := .user 999999
+
+/-- the staking-rewards part of `BasketWithdrawSurplus`: `ClaimRewardsFromModule(basket)` moves the recorded rewards of
+the basket module from the fee collector to the module (`panic(err)` when it cannot pay) and removes the record; the
+claimed coins are then forwarded to the withdraw target. Nothing of the baskets' reserves or surplus is touched. -/
+def claimModuleRewards (s : St) (target : Acct) : Option St :=
+  match s.modRewards with
+  | [] => some s                                   -- `rewards.IsAllPositive()` is false for the empty set
+  | rw =>
+    match s.bank.send feeCollector .module rw with
+    | none => none
+    | some b1 =>
+      match b1.send .module target rw with
+      | none => none
+      | some b2 => some { s with bank := b2, modRewards := [] }
+
+/-- the whole `BasketWithdrawSurplus`: the surplus of the listed baskets, then the module's staking rewards -/
+def withdrawSurplusAll (s : St) (target : Acct) (ids : List Nat) : Option St :=
+  match withdrawSurplus s target ids with
+  | none => none
+  | some s1 => claimModuleRewards s1 target
 
 inductive Op where
   | mint (a : Nat) (id : Nat) (dep : Coins)
